@@ -19,8 +19,9 @@ func init() {
 			"(R1 TABLE) the 32-byte padding string (7.6.3.3) byte for byte; Algorithm 2 / 3: the MD5 re-hash loop runs for counter values 0..49 and the RC4 loop for 1..19 (the counter is the XOR operand), both only for revision ≥ 3 — loop ranges are read off the counter φ, its constant start, the +1 step and the constant bound of the loop test, also for range-over-integer loops; revision 2 keys are cut to 5 bytes; the 0xFFFFFFFF suffix is hashed only when metadata is not encrypted; Algorithm 2.A/2.B: validation salt = bytes 32..39, key salt = bytes 40..47 of /O and /U; the inner block is repeated 64 times, at least 64 rounds, continuation test against round − 32; passwords are cut at 127 bytes; /Perms: bytes 9..11 are 'adb', byte 8 is 'T' or 'F' (read side), and the block written by writePermissions stores FF at bytes 4..7, 'T'/'F' at 8 and 'adb' at 9..11 as constants. " +
 			"(R2) the termination rule of Algorithm 2.B is read off the exit edges of hashRev6's round loop as linear facts over the round counter, normalised to the number of completed rounds (position of the test in the iteration). (R3) IDFirstElement returns, for a literal string, the result of types.Unescape (directly or through a helper) and for a hex string its decoded bytes: Algorithms 2 and 5 hash the ID string's value, and another producer's escaped bytes (\\( \\) \\\\ or octal) are not that value. " +
 			"(R4) in the four AES-256 password validators (and a preparation helper they share, if any) the value cut with [:127] derives from the result of processInput (SASLprep), and processInput's argument is not a cut value: Algorithm 2.A normalises first and truncates the UTF-8 result. " +
+			"(R5) the first /ID element, an input of Algorithms 2 and 5, reaches the output as read: no store through an index other than 1 into a value loaded from the ID field, whole-field assignments only behind ID == nil (or in the reader / constructors of new documents). " +
 			"NOT decided: the hash, cipher and big-integer arithmetic (standard library), SASLprep, that the pieces are concatenated in the order the algorithms give, key lengths other than through L/8.",
-		Rules:       []string{"C24.R1 TABLE: constants of ISO 32000 algorithms 2, 3, 4/5, 2.A, 2.B, 8–13 (padding string, round counts, salt offsets, truncations, /Perms markers)", "C24.R2 linear facts: the round loop of Algorithm 2.B is left exactly when n >= 64 and last <= n - 32 (n = completed rounds)", "C24.R3 flow: the first /ID element that enters the key derivation is the string's value (unescaped literal / decoded hex), as written by the file writer", "C24.R4 order: the 127-byte cut of Algorithm 2.A is applied to the SASLprep output, not to its input"},
+		Rules:       []string{"C24.R1 TABLE: constants of ISO 32000 algorithms 2, 3, 4/5, 2.A, 2.B, 8–13 (padding string, round counts, salt offsets, truncations, /Perms markers)", "C24.R2 linear facts: the round loop of Algorithm 2.B is left exactly when n >= 64 and last <= n - 32 (n = completed rounds)", "C24.R3 flow: the first /ID element that enters the key derivation is the string's value (unescaped literal / decoded hex), as written by the file writer", "C24.R4 order: the 127-byte cut of Algorithm 2.A is applied to the SASLprep output, not to its input", "C24.R5 WMC: nothing stores into the first element of an existing /ID array; the field is assigned only where it was nil"},
 		Assumptions: []string{"crypto/md5, rc4, aes, sha256, sha512 are correct"},
 		Level:       "other",
 		Technique:   "spec-constant table agreement on SSA: global initialiser bytes, counter-loop ranges, slice bounds, compared constants",
@@ -174,6 +175,8 @@ func runC24(c *Ctx) {
 	checkIDUnescaped(c)
 	r.MinInst["C24.R4"] = 4
 	checkPasswordCutAfterSASLprep(c)
+	r.MinInst["C24.R5"] = 2
+	checkPermanentIDKept(c)
 	ok := func(fid, construct, pos, why string) { r.OK("C24.R1", fid, construct, pos, why, true) }
 	bad := func(fid, construct, pos, why string) { r.Bad("C24.R1", fid, construct, pos, why) }
 	// ---- padding string
